@@ -15,11 +15,152 @@ type EncInfo struct {
 	ID      int
 }
 
+// CodecInfo marks an opaque byte string as the serialisation of one value by encoding/json or encoding/xml
+// (trusted: the standard library decodes it back to an equal value; DESIGN C16).
+type CodecInfo struct {
+	Kind string     // "json" | "xml"
+	Val  Value      // snapshot of the serialised value (pointers followed once)
+	T    types.Type // its type
+}
+
+// codecInfoOf snapshots the value handed to a marshalling function.
+func (e *Exec) codecInfoOf(st *State, kind string, v Value) *CodecInfo {
+	i, ok := v.(*Iface)
+	if !ok || i.T == nil {
+		return nil
+	}
+	t, val := i.T, i.V
+	if pt, ok := t.Underlying().(*types.Pointer); ok {
+		p, ok := val.(*Ptr)
+		if !ok || p.IsNil() {
+			return nil
+		}
+		t, val = pt.Elem(), st.load(p)
+	}
+	return &CodecInfo{Kind: kind, Val: val, T: t}
+}
+
+// flattenBody: the chunks a body consists of (identity "ENC" tokens made by verifPackBody are looked through).
+func flattenBody(s *Str, out []*Str) []*Str {
+	if s.Enc != nil && s.Enc.Coding == "" {
+		for _, c := range s.Enc.Payload {
+			out = flattenBody(c, out)
+		}
+		return out
+	}
+	return append(out, s)
+}
+
+// readerContent resolves what reading r to the end would deliver. status: "ok" (chunks valid), "bad" (a decoder in the
+// chain fails: not a stream of its coding, or nothing left to read), "unknown" (the chain cannot be resolved).
+// sources are the objects the bytes are finally taken from (marked consumed by a read).
+func (e *Exec) readerContent(st *State, r Value, depth int) (chunks []*Str, sources []*Ptr, status string) {
+	if depth > 8 {
+		return nil, nil, "unknown"
+	}
+	switch x := r.(type) {
+	case *Iface:
+		if x.T == nil {
+			return nil, nil, "unknown"
+		}
+		return e.readerContent(st, x.V, depth+1)
+	case *StructV:
+		if len(x.F) == 1 { // io.nopCloser and friends
+			return e.readerContent(st, x.F[0], depth+1)
+		}
+	case *Ptr:
+		if x.IsNil() {
+			return nil, nil, "unknown"
+		}
+		switch o := st.heap[x.Obj].V.(type) {
+		case *StructV:
+			if len(x.Path) == 0 && len(o.F) == 1 {
+				return e.readerContent(st, o.F[0], depth+1)
+			}
+		case *ModelV:
+			switch o.Kind {
+			case "verif.body", "bytes.Reader":
+				if c, ok := o.F["consumed"].(*sym.Term); ok && c.IsTrue() {
+					return nil, []*Ptr{x}, "bad"
+				}
+				d, ok := o.F["data"].(*Str)
+				if !ok {
+					return nil, nil, "unknown"
+				}
+				return flattenBody(d, nil), []*Ptr{x}, "ok"
+			case "gzip.Reader", "zlib.reader":
+				coding := "gzip"
+				if o.Kind == "zlib.reader" {
+					coding = "deflate"
+				}
+				src, ok := o.F["src"]
+				if !ok {
+					return nil, nil, "unknown"
+				}
+				if sp, ok := src.(*Ptr); ok && sp.Obj == x.Obj {
+					return nil, nil, "bad" // reset onto itself
+				}
+				in, srcs, stt := e.readerContent(st, src, depth+1)
+				if stt != "ok" {
+					return nil, srcs, stt
+				}
+				if len(in) != 1 || in[0].Enc == nil || in[0].Enc.Coding != coding {
+					return nil, srcs, "bad"
+				}
+				var out []*Str
+				for _, c := range in[0].Enc.Payload {
+					out = flattenBody(c, out)
+				}
+				return out, srcs, "ok"
+			}
+		}
+	}
+	return nil, nil, "unknown"
+}
+
+func (e *Exec) consumeSources(st *State, srcs []*Ptr) {
+	for _, p := range srcs {
+		if mv, ok := st.heap[p.Obj].V.(*ModelV); ok {
+			st.setObj(p.Obj, mv.with("consumed", e.C.True))
+		}
+	}
+}
+
+// lossyNumbers: what encoding/json makes of numbers decoded into interface{} without UseNumber: float64. Modelled
+// as: exact for |n| <= 2^53 and for even n, anything for odd n beyond (those are never representable).
+func (e *Exec) lossyNumbers(st *State, v Value) Value {
+	sv, ok := v.(*StructV)
+	if !ok {
+		return v
+	}
+	f := append([]Value{}, sv.F...)
+	for i, x := range f {
+		ifc, ok := x.(*Iface)
+		if !ok || ifc.T == nil {
+			continue
+		}
+		b, ok := ifc.T.Underlying().(*types.Basic)
+		t, isT := ifc.V.(*sym.Term)
+		if !ok || !isT || b.Kind() != types.Int64 {
+			continue
+		}
+		lim := int64(1) << 53
+		small := e.C.And(e.C.Sle(e.C.BV(uint64(-lim), 64), t), e.C.Sle(t, e.C.BV(uint64(lim), 64)))
+		even := e.C.Eq(e.C.BvAnd(t, e.C.BV(1, 64)), e.C.BV(0, 64))
+		fv := e.freshVar("float64", 64)
+		e.assumeTrusted(st, e.C.Or(e.C.Not(e.C.Or(small, even)), e.C.Eq(fv, t)))
+		f[i] = &Iface{T: ifc.T, V: fv}
+	}
+	return &StructV{F: f}
+}
+
 func (e *Exec) codecSeq(st *State, key string) int {
 	n := e.extraInt(st, "seq:"+key)
 	st.extra["seq:"+key] = e.i64(n + 1)
 	return n
 }
+
+const xmlHeader = "<?xml version=\"1.0\" encoding=\"UTF-8\"?>\n"
 
 // PayloadCap is the capacity of opaque codec outputs.
 var PayloadCap = 3
@@ -37,7 +178,7 @@ func marshalVerdict(v Value) string {
 			switch n.Obj().Name() {
 			case "vBadEntity":
 				return "fail"
-			case "vEntity":
+			case "vEntity", "vEnt16J", "vEnt16X":
 				return "ok"
 			}
 		}
@@ -71,6 +212,7 @@ func registerCodecs(m map[string]Intrinsic) {
 						e.assumeTrusted(s2, cn)
 					}
 					e.addInput(s2, name, "string", out)
+					out.Codec = e.codecInfoOf(s2, kind, ci.Args[0])
 					return tuple(out, nilIface), true
 				}},
 				{Cond: failV, ValFn: func(s2 *State) (Value, bool) {
@@ -104,6 +246,7 @@ func registerCodecs(m map[string]Intrinsic) {
 						e.assumeTrusted(s2, cn)
 					}
 					e.addInput(s2, name, "string", out)
+					out.Codec = e.codecInfoOf(s2, kind, ci.Args[1])
 					o := e.tailMethod(s2, w, "Write", []Value{out}, func(_ *State, res Value) Value {
 						return res.(*TupleV).E[1]
 					})
@@ -125,17 +268,57 @@ func registerCodecs(m map[string]Intrinsic) {
 	}
 	m["encoding/json.NewDecoder"] = newDecoder("json")
 	m["encoding/xml.NewDecoder"] = newDecoder("xml")
-	m["(*encoding/json.Decoder).UseNumber"] = noop
+	m["(*encoding/json.Decoder).UseNumber"] = func(e *Exec, st *State, ci *CallInfo) Outcome {
+		p, mv := e.model(st, ci.Args[0], "json.Decoder")
+		st.setObj(p.Obj, mv.with("usenumber", e.C.True))
+		return val(nil)
+	}
 	decode := func(kind string) Intrinsic {
 		return func(e *Exec, st *State, ci *CallInfo) Outcome {
-			k := e.codecSeq(st, kind+"dec")
-			failV := e.C.Var(fmt.Sprintf("%sdec!%d!err", kind, k), 0)
-			return Outcome{Kind: OutAlts, Exhaustive: true, Alts: []AltOut{
-				{Cond: e.C.Not(failV), Val: nilIface},
-				{Cond: failV, ValFn: func(s2 *State) (Value, bool) {
-					return e.errorValue(s2, kind+": decode error (stub)"), true
-				}},
-			}}
+			_, mv := e.model(st, ci.Args[0], kind+".Decoder")
+			chunks, srcs, status := e.readerContent(st, mv.F["r"], 0)
+			if status == "unknown" {
+				// a source the model cannot look into: succeeds or fails, stores nothing
+				k := e.codecSeq(st, kind+"dec")
+				failV := e.C.Var(fmt.Sprintf("%sdec!%d!err", kind, k), 0)
+				return Outcome{Kind: OutAlts, Exhaustive: true, Alts: []AltOut{
+					{Cond: e.C.Not(failV), Val: nilIface},
+					{Cond: failV, ValFn: func(s2 *State) (Value, bool) {
+						return e.errorValue(s2, kind+": decode error (stub)"), true
+					}},
+				}}
+			}
+			e.consumeSources(st, srcs)
+			if status != "ok" {
+				return val(e.errorValue(st, kind+": unreadable input (stub)"))
+			}
+			var doc *Str
+			for _, c := range chunks {
+				switch {
+				case c.Codec != nil && doc == nil:
+					doc = c
+				case c.Codec == nil && c.IsConc && (c.Conc == "" || (kind == "xml" && doc == nil && c.Conc == xmlHeader)):
+				default:
+					return val(e.errorValue(st, kind+": syntax error (stub)"))
+				}
+			}
+			if doc == nil || doc.Codec.Kind != kind {
+				return val(e.errorValue(st, kind+": syntax error (stub)"))
+			}
+			// store the value into the target when it has the type that was serialised
+			if tgt, ok := ci.Args[1].(*Iface); ok && tgt.T != nil {
+				if pt, ok := tgt.T.Underlying().(*types.Pointer); ok {
+					if p, ok := tgt.V.(*Ptr); ok && !p.IsNil() && types.Identical(pt.Elem(), doc.Codec.T) {
+						v := doc.Codec.Val
+						un, _ := mv.F["usenumber"].(*sym.Term)
+						if kind == "json" && (un == nil || !un.IsTrue()) {
+							v = e.lossyNumbers(st, v)
+						}
+						st.store(p, v)
+					}
+				}
+			}
+			return val(nilIface)
 		}
 	}
 	m["(*encoding/json.Decoder).Decode"] = decode("json")
@@ -211,7 +394,12 @@ func registerCodecs(m map[string]Intrinsic) {
 	m["(*compress/gzip.Reader).Reset"] = func(e *Exec, st *State, ci *CallInfo) Outcome {
 		p, mv := e.model(st, ci.Args[0], "gzip.Reader")
 		st.setObj(p.Obj, mv.with("src", ci.Args[1]))
-		// the source may not be a gzip stream: Reset fails or succeeds
+		if _, _, status := e.readerContent(st, p, 0); status == "ok" {
+			return val(nilIface)
+		} else if status == "bad" {
+			return val(e.errorValue(st, "gzip: invalid header"))
+		}
+		// a source the model cannot look into may not be a gzip stream: Reset fails or succeeds
 		k := e.codecSeq(st, "gzipreset")
 		failV := e.C.Var(fmt.Sprintf("gzipreset!%d!err", k), 0)
 		return Outcome{Kind: OutAlts, Exhaustive: true, Alts: []AltOut{
@@ -221,6 +409,12 @@ func registerCodecs(m map[string]Intrinsic) {
 	}
 	m["(*compress/gzip.Reader).Close"] = func(e *Exec, st *State, ci *CallInfo) Outcome { return val(nilIface) }
 	m["compress/zlib.NewReader"] = func(e *Exec, st *State, ci *CallInfo) Outcome {
+		if in, _, status := e.readerContent(st, ci.Args[0], 0); status == "ok" && len(in) == 1 && in[0].Enc != nil && in[0].Enc.Coding == "deflate" {
+			p := e.newModel(st, "zlib.reader", map[string]Value{"src": ci.Args[0]})
+			return val(tuple(&Iface{T: e.namedType("io", "ReadCloser"), V: p}, nilIface))
+		} else if status != "unknown" {
+			return val(tuple(nilIface, e.errorValue(st, "zlib: invalid header")))
+		}
 		k := e.codecSeq(st, "zlibreader")
 		failV := e.C.Var(fmt.Sprintf("zlibreader!%d!err", k), 0)
 		return Outcome{Kind: OutAlts, Exhaustive: true, Alts: []AltOut{
@@ -268,6 +462,33 @@ func registerCodecs(m map[string]Intrinsic) {
 			out = e.Concat(out, c)
 		}
 		return val(tuple(out, e.C.True))
+	}
+	// ---- request bodies for the write-then-read harness (C16)
+	m[hp+"verifBody"] = func(e *Exec, st *State, ci *CallInfo) Outcome {
+		p := e.newModel(st, "verif.body", map[string]Value{"data": ci.Args[0]})
+		return val(&Iface{T: e.namedType("io", "ReadCloser"), V: p})
+	}
+	m[hp+"verifPackBody"] = func(e *Exec, st *State, ci *CallInfo) Outcome {
+		coding := mustConc(ci.Args[0], "coding")
+		var chunks []*Str
+		for _, c := range e.sliceElems(st, ci.Args[1].(*SliceV)) {
+			chunks = append(chunks, c.(*Str))
+		}
+		tok := e.opaqueStr(st, "packed", 2)
+		e.assumeTrusted(st, e.C.Sge(tok.Len, e.i64(1)))
+		tok.Enc = &EncInfo{Coding: coding, Payload: chunks, ID: -1}
+		return val(tok)
+	}
+	m[hp+"verifCorruptBody"] = func(e *Exec, st *State, ci *CallInfo) Outcome {
+		return val(e.opaqueStr(st, "corrupt", 2))
+	}
+	m[hp+"verifAsInt64"] = func(e *Exec, st *State, ci *CallInfo) Outcome {
+		if i, ok := ci.Args[0].(*Iface); ok && i.T != nil {
+			if b, ok := i.T.Underlying().(*types.Basic); ok && b.Kind() == types.Int64 {
+				return val(tuple(i.V, e.C.True))
+			}
+		}
+		return val(tuple(e.i64(0), e.C.False))
 	}
 	m[hp+"verifEncChunks"] = func(e *Exec, st *State, ci *CallInfo) Outcome {
 		s := sArg(ci, 0)
